@@ -10,6 +10,8 @@
 import MW.Model.Sign
 import MW.Gen.Sec
 import MW.Lemmas.Sign
+import MW.Lemmas.SignVM
+import MW.Lemmas.SignVMEx
 namespace MW.Props.C03
 open MW.Model.Sign MW.Lemmas.Sign
 
@@ -51,9 +53,10 @@ theorem sign_complete_partial (E : Engine C A) (env : Env C A) (pass : C.Pass) (
   obtain ⟨tx', h⟩ := signTx_complete hp hL hs
   exact ⟨tx', h, signTx_strip h⟩
 
-/-- the full-strength statement that is NOT proved: the same with the real script VM and real ECDSA in
-    place of the `Engine` / `Crypto` laws (would need an executable model of mass-core's txscript engine
-    and of secp256k1).  Kept as a type-checked proposition. -/
+/-- the full-strength statement as it was written down in round 1 (kept verbatim).  Round 4: it is FALSE as
+    stated – it forgets C04's key/address agreement (`pkOf sk = pk`, `hashOf pk = addr`), without which the engine
+    rightly refuses the witness: `C03_full_sign_complete_too_strong` below is the counterexample.  The statement with
+    that hypothesis and with the script VM MODEL in place of the `Engine` law is the theorem `sign_complete_vm`. -/
 def C03_full_sign_complete : Prop :=
   ∀ (C : Crypto) (A : Type) (E : Engine C A) (env : Env C A) (pass : C.Pass), env.params = C.params pass →
     ∀ (fl : Flag) (tx : Tx (Witness C)),
@@ -177,5 +180,139 @@ example : (match (signTx toyEngine toyEnv (Lock.locked toyCrypto) 8 ⟨.all, fal
 example : (match (signTx toyEngine toyEnv (Lock.locked toyCrypto) 7 ⟨.all, false⟩
       { toyTx with ins := [⟨⟨"T", 1⟩, 2^64 - 1, none⟩] }).2 with
     | .error .script => true | _ => false) = true := by decide
+
+-- ------------------------------------------------------------------ round 4: the script VM is a MODEL
+
+section VM
+open MW MW.Model.ScriptVM MW.Lemmas.ScriptVMParse MW.Lemmas.ScriptVMExec MW.Lemmas.ScriptVMMain MW.Lemmas.SignVM
+open MW.Lemmas.SignVMEx
+
+/-- vm_verdict: for ALL primitives and contexts, the engine model (NewEngine + Execute: MW.Model.ScriptVM.verify)
+    run on a witness-script-hash / staking / binding output (`pkScriptOf h k`) with the witness
+    [push(signature ‖ hash type), OP_1 <pk> OP_1 OP_CHECKMULTISIG] returns exactly `verdict` – including the
+    error class: program mismatch, the CHECKSEQUENCEVERIFY errors of the prelude, hash-type / DER / low-S /
+    key-encoding errors, NULLFAIL. -/
+theorem vm_verdict (P : Prims) (ctx : Ctx P) (h pk full : Bytes) (k : Kind) (hh : h.length = 32) (hk : k.wf)
+    (hpk : pk.length = 33) (h1 : 1 ≤ full.length) (h2 : full.length ≤ 75) :
+    Model.ScriptVM.verify P ctx (pkScriptOf h k) [sigPush full, redeem1 pk] = verdict P ctx h pk full k :=
+  verify_template P ctx h pk full k hh hk hpk h1 h2
+
+/-- vm_p2wsh: the law that used to be the HYPOTHESIS `Engine.p2wsh`, proved of the VM model as an
+    EQUIVALENCE: the template witness is accepted iff sha256(redeem script) is the witness program, the
+    sequence rule of the output class holds (staking: `<frozen+1> CSV`; binding: `<MASSIP0002BindingLockedPeriod>
+    CSV` under the flag ScriptMASSip2) and the signature part is valid (non-empty, hash type in {1,2,3}(+0x80),
+    strict DER with low S, compressed key, both parse, ECDSA verifies against the signature hash of the redeem
+    script). -/
+theorem vm_p2wsh (P : Prims) (ctx : Ctx P) (h pk full : Bytes) (k : Kind) (hh : h.length = 32) (hk : k.wf)
+    (hpk : pk.length = 33) (h1 : 1 ≤ full.length) (h2 : full.length ≤ 75) :
+    Model.ScriptVM.verify P ctx (pkScriptOf h k) [sigPush full, redeem1 pk] = .ok () ↔
+      P.sha256 (redeem1 pk) = h ∧ PreludeOk P ctx k ∧ SigValid P ctx pk full := by
+  rw [verify_template P ctx h pk full k hh hk hpk h1 h2]; exact verdict_ok_iff P ctx h pk full k
+
+/-- the verdict does not depend on the binding target (the model of `PrevOut` keeps none) -/
+theorem vm_bind_target_irrelevant (P : Prims) (ctx : Ctx P) (h pk full t t' : Bytes) (hh : h.length = 32)
+    (ht : t.length = 20 ∨ t.length = 22) (ht' : t'.length = 20 ∨ t'.length = 22) (hpk : pk.length = 33)
+    (h1 : 1 ≤ full.length) (h2 : full.length ≤ 75) :
+    Model.ScriptVM.verify P ctx (pkScriptOf h (.bind t)) [sigPush full, redeem1 pk] =
+      Model.ScriptVM.verify P ctx (pkScriptOf h (.bind t')) [sigPush full, redeem1 pk] := by
+  rw [verify_template P ctx h pk full (.bind t) hh ht hpk h1 h2, verify_template P ctx h pk full (.bind t') hh ht' hpk h1 h2]; rfl
+
+/-- sign_checked_vm: with the script VM model as the engine (`vmEngine K`, whose law is the theorem `vm_law`),
+    a successful signTx means that for EVERY input the VM model accepts the returned witness bytes against the
+    pkScript of the output it spends. -/
+theorem sign_checked_vm (K : Codec C) (env : Env C Bytes) (L : Lock C) (p : C.Pass) (fl : Flag)
+    (tx tx' : Tx (Witness C)) (h : (signTx (vmEngine K) env L p fl tx).2 = .ok tx') :
+    ∀ (j : Nat) (inp : TxIn (Witness C)), tx.ins[j]? = some inp →
+      ∃ po inp', env.resolve inp.prev = .ok po ∧ tx'.ins[j]? = some inp' ∧ vmOk K po tx'.strip j inp'.wit = true :=
+  sign_checked (vmEngine K) env L p fl tx tx' h
+
+/-- sign_complete_vm: C03's completeness with the REAL VM MODEL in place of the engine law (ECDSA and the byte codec
+    stay laws: `Crypto.verify_sign`, `Codec`): a transaction whose inputs spend template outputs of addresses of the
+    selected keystore (key/address agreement of C04 inside `Signable`: `hashOf pk = addr` now reads
+    sha256(OP_1 <pk> OP_1 OP_CHECKMULTISIG) = script hash), sequence rule met, is signed successfully under all
+    six flags with the keystore's passphrase, and every witness passes the VM (`sign_checked_vm`). -/
+theorem sign_complete_vm (K : Codec C) (env : Env C Bytes) (pass : C.Pass) (hp : env.params = C.params pass)
+    (L : Lock C) (hL : LockCons pass L) (fl : Flag) (tx : Tx (Witness C)) (hs : Signable (vmEngine K) env fl tx) :
+    ∃ tx', (signTx (vmEngine K) env L pass fl tx).2 = .ok tx' ∧ tx'.strip = tx.strip :=
+  sign_complete_partial (vmEngine K) env pass hp L hL fl tx hs
+
+/-- pass_gate with the VM model as the engine -/
+theorem pass_gate_vm (K : Codec C) (env : Env C Bytes) (pass : C.Pass) (hp : env.params = C.params pass)
+    (L₀ : Lock C) (hL₀ : LockCons pass L₀) (as : List (C.Pass × Flag × Tx (Witness C)))
+    (j : Nat) (p : C.Pass) (fl : Flag) (tx : Tx (Witness C)) (hj : as[j]? = some (p, fl, tx)) :
+    ∃ r, (attempts (vmEngine K) env L₀ as)[j]? = some r ∧
+      (p = pass → Signable (vmEngine K) env fl tx → ∃ tx', r = .ok tx' ∧ tx'.strip = tx.strip) ∧
+      (p ≠ pass → FirstSigned fl tx → ∃ e, r = .error e) ∧
+      (p ≠ pass → Signable (vmEngine K) env fl tx → tx.ins ≠ [] → r = .error .pass) :=
+  pass_gate (vmEngine K) env pass hp L₀ hL₀ as j p fl tx hj
+
+set_option maxRecDepth 8000 in
+/-- tie B: the model's opcode dispatch is today's `opcodeArray` (handler function per opcode value), the
+    constants shared with C16 agree, minimal-encoding checks are never switched on, and the wallet runs the
+    engine with StandardVerifyFlags = ScriptDiscourageUpgradableNops (+ ScriptMASSip2 from the warm-up height) -/
+theorem gen_tie_vm_handlers :
+    (List.range 256).map (fun v => (handlerOf v).goName) = Gen.Vm.opHandlers := by decide
+
+theorem gen_tie_vm_constants :
+    Gen.Vm.maxScriptElementSize = Gen.Script.maxScriptElementSize ∧
+    Gen.Vm.sequenceLockTimeMask = Gen.Script.sequenceLockTimeMask ∧
+    Gen.Vm.bindingLockedPeriod = Gen.Script.bindingLockedPeriod ∧
+    Gen.Vm.sequenceLockTimeDisabled = 2 ^ 63 ∧ Gen.Vm.sequenceLockTimeIsSeconds = 2 ^ 38 ∧
+    Gen.Vm.sequenceLockTimeMask = 2 ^ 32 - 1 ∧
+    Gen.Vm.standardVerifyFlags = Gen.Vm.flagDiscourageUpgradableNops ∧
+    Gen.Vm.minimalDataNeverSet = true ∧ Gen.Vm.walletFlagsShape = true := by decide
+
+def badEnv : Env toyCrypto Nat where
+  resolve := fun _ => .ok ⟨50, .std, 1001⟩
+  pubOf := fun _ => some 7
+  skOf := fun _ => some 1
+  params := 7
+
+def badTx : Tx (Witness toyCrypto) :=
+  { version := 1, lock := 0, payload := "", ins := [⟨⟨"T", 0⟩, 0, none⟩], outs := [⟨1, "x"⟩] }
+
+/-- the round-1 "full" statement is too strong: without key/address agreement the engine refuses.  Counterexample:
+    a keystore that answers address 1001 with the public key 7. -/
+theorem C03_full_sign_complete_too_strong : ¬ C03_full_sign_complete := by
+  intro h
+  obtain ⟨tx', h'⟩ := h toyCrypto Nat toyEngine badEnv 7 rfl ⟨.all, false⟩ badTx
+    (by intro inp hi
+        simp only [badTx, List.mem_cons, List.not_mem_nil, or_false] at hi
+        subst hi
+        exact ⟨⟨50, .std, 1001⟩, rfl, by decide, rfl, rfl, rfl⟩)
+    (by intro hb; cases hb)
+  have hf : (match (signTx toyEngine badEnv (Lock.locked toyCrypto) 7 ⟨.all, false⟩ badTx).2 with
+      | .ok _ => false | .error _ => true) = true := by decide
+  rw [h'] at hf
+  cases hf
+
+/-- the codec laws are satisfiable (`tinyCodec`), and the VM ENGINE itself runs (evaluation tests, not theorems):
+    a standard and a staking input signed under every flag pass the VM; a staking input with the default
+    sequence, a wrong passphrase and a foreign key are refused with the expected error. -/
+def tinyEnv : Env tinyCrypto Bytes where
+  resolve := fun op =>
+    if op = ⟨"T", 0⟩ then .ok ⟨50, .std, (vmEngine tinyCodec).hashOf 5⟩
+    else if op = ⟨"T", 1⟩ then .ok ⟨70, .stk 3, (vmEngine tinyCodec).hashOf 9⟩
+    else if op = ⟨"T", 2⟩ then .ok ⟨70, .bind, (vmEngine tinyCodec).hashOf 9⟩
+    else .error .utxo
+  pubOf := fun a => if a = (vmEngine tinyCodec).hashOf 5 then some 5 else if a = (vmEngine tinyCodec).hashOf 9 then some 9 else none
+  skOf := fun a => if a = (vmEngine tinyCodec).hashOf 5 then some 5 else if a = (vmEngine tinyCodec).hashOf 9 then some 9 else none
+  params := 7
+
+def tinyTx : Tx (Witness tinyCrypto) :=
+  { version := 1, lock := 9, payload := "pl",
+    ins := [⟨⟨"T", 0⟩, 2^64 - 1, none⟩, ⟨⟨"T", 1⟩, 4, none⟩, ⟨⟨"T", 2⟩, 2^64 - 1, none⟩],
+    outs := [⟨100, "x"⟩, ⟨19, "y"⟩, ⟨1, "z"⟩] }
+
+example : ∀ fl ∈ [Flag.mk .all false, ⟨.none, false⟩, ⟨.single, false⟩, ⟨.all, true⟩, ⟨.none, true⟩, ⟨.single, true⟩],
+    (match (signTx (vmEngine tinyCodec) tinyEnv (Lock.locked tinyCrypto) 7 fl tinyTx).2 with
+      | .ok _ => true | .error _ => false) = true := by decide
+example : (match (signTx (vmEngine tinyCodec) tinyEnv (Lock.locked tinyCrypto) 8 ⟨.all, false⟩ tinyTx).2 with
+    | .error .pass => true | _ => false) = true := by decide
+example : (match (signTx (vmEngine tinyCodec) tinyEnv (Lock.locked tinyCrypto) 7 ⟨.all, false⟩
+      { tinyTx with ins := [⟨⟨"T", 1⟩, 2^64 - 1, none⟩] }).2 with
+    | .error .script => true | _ => false) = true := by decide
+
+end VM
 
 end MW.Props.C03
